@@ -1,8 +1,11 @@
 /-
-Simp set used to unfold the regenerated C08 entry definitions (`Gen/C08.lean` tags every matrix /
-vector entry and every assembled matrix with `@[c08_entries]`; radicand definitions are NOT
-tagged). Needs core Lean only.
+Simp sets used to unfold the regenerated C08 definitions. `Gen/C08.lean` tags every matrix / vector
+entry, every assembled matrix and every shared subterm (`<family>_s<i>`) with `@[c08_entries]`, and the
+components of every named intermediate vector (`<family>_v<k>_<i>`: the result of a matrix-times-vector
+einsum in the generated code, resp. of an `ArrayMultiplication` in an explicit matrix) with
+`@[c08_vectors]`; radicand definitions are NOT tagged. Needs core Lean only.
 -/
 import Lean.Meta.Tactic.Simp.RegisterCommand
 
 register_simp_attr c08_entries
+register_simp_attr c08_vectors
